@@ -120,15 +120,25 @@ def _tail(s, n=40):
 
 
 def printed_values(out: str):
-    """Values printed by PrintT, one per line (we only ever print tuples <<...>>)."""
+    """Values printed by PrintT (we only ever print tuples <<...>>); TLC wraps long values over several lines."""
     vals = []
+    buf = None
     for line in out.splitlines():
-        line = line.strip()
-        if line.startswith("<<") and line.endswith(">>"):
+        if buf is None:
+            if line.startswith("<<"):
+                buf = line
+            else:
+                continue
+        else:
+            buf += "\n" + line
+        if buf.count("<<") <= buf.count(">>") and buf.count("{") <= buf.count("}") and buf.count("[") <= buf.count("]"):
             try:
-                vals.append(tlaval.parse_value(line))
+                vals.append(tlaval.parse_value(buf.strip()))
             except tlaval.ParseError:
                 pass
+            buf = None
+        elif buf.count("\n") > 200:
+            buf = None
     return vals
 
 
